@@ -90,10 +90,14 @@ def main(argv):
         props = sorted(set(exp.get('properties', [meta['property']])))
         res = run_patch(pp, props)
         fired = {r for pid, rc, f, t in res for r in f}
+        own = {r for pid, rc, f, t in res for r in f
+               if pid == meta['property']}
         errs = [pid for pid, rc, f, t in res if rc == 2]
         if exp.get('detected', True):
             want = set(exp.get('rules', []))
-            ok = bool(fired) and want <= fired and not errs
+            # the change must be reported by the check of the property it
+            # breaks, not only by another property's check
+            ok = bool(own) and want <= fired and not errs
         else:
             ok = not fired and not errs
         print('%-40s %s fired=%s' % (name, 'ok' if ok else 'MISMATCH',
